@@ -15,7 +15,7 @@ RULE = ('butter_pass: (order 1-4, band/low/high, cut_off as list/tuple/array (a 
         'SignalProcessingError. running_average widths 1-25 on float- and integer-dtype records of length 1-80, 1e-12 relative; non-trivial = record not constant')
 TRUSTED = [
     'Coq 8.16.1 kernel + vm_compute',
-    'hand-written model coq/model/M_signalops.v; tie = correspondence of this run (model/K_C17.v)',
+    'hand-written model coq/model/M_signalops.v; tie = correspondence of this run (model/K_C17.v) and, for butter_pass / add_* / running_average, the source-text tie: translator/py2coq_c17.py (Python ast -> Gallina by symbolic execution, fail closed) with its fixed readings of Python/NumPy (slice index normalisation, slice assignment, broadcasting of +, np.mean, np.ones, kwargs.get, int(np.ceil(np.log2(n))) as Z.log2_up n, int / int as an exact rational)',
     'scipy.signal.butter + filtfilt are an oracle (Section hypothesis in the theorems): their linearity and the zero-phase |H|^2 response are validated numerically on every run (a test, not a proof)',
     'np.polyfit is an oracle; the Q-run solves the normal equations exactly and checks inside Coq that its coefficients satisfy them; theorems hold for any solution of the normal equations',
     'tan(pi f dt) kernel values for the gain formula are computed by the harness (math.tan)',
@@ -441,8 +441,22 @@ def ravg_case(rep, rng, cases, w, n, int_dtype=False):
 
 
 # ------------------------------------------------------------------ driver
+def regen_c17():
+    """re-translate Signal.butter_pass / add_constant / add_series / add_signal / running_average of eqsig/single.py into
+    coq/gen/Gen_c17.v (fail closed): the `*_is_source` theorems of Prop_C17 are then re-proved against the code that is in
+    the repo now"""
+    import sys
+    try:
+        sys.path.insert(0, os.path.join(core.VERIF, 'translator'))
+        import py2coq_c17
+        py2coq_c17.regenerate(repo=core.REPO)
+    except Exception as e:
+        return 'py2coq_c17: %s: %s' % (type(e).__name__, e)
+    return None
+
+
 def run(rep, rng, tier):
-    rep.prove('Prop_C17')
+    rep.prove('Prop_C17', gen_failed=regen_c17())
     _PURITY_SEEN.clear()
     quick = tier == 'quick'
     bps, lins, gains, polys, sames, adds, ravgs = [], [], [], [], [], [], []
